@@ -3,19 +3,19 @@
 # (never to /repo), runs the checks against it with evidence/replays redirected to /tmp/verif_mut, prints a summary.
 set -u
 PATCH=$1; TIER=$2; shift 2
-WT=/tmp/wt/me
+WT=${WT:-/tmp/wt/me}; OUTD=/tmp/verif_mut_$(basename $WT)
 if [ ! -d $WT ]; then git -C /repo worktree add -q --detach $WT HEAD; fi
-git -C $WT checkout -q -- . ; git -C $WT checkout -q --detach $(git -C /repo rev-parse HEAD)
+git -C $WT reset -q --hard; git -C $WT clean -fdq; git -C $WT checkout -q --detach $(git -C /repo rev-parse HEAD)
 if ! git -C $WT apply --3way "$PATCH" 2>/tmp/verif_mut_apply.log; then
-  if ! (cd $WT && patch -p1 --no-backup-if-mismatch -F3 < "$PATCH" >/tmp/verif_mut_apply.log 2>&1); then echo "PATCH DOES NOT APPLY: $PATCH"; cat /tmp/verif_mut_apply.log | tail -5; git -C $WT checkout -q -- .; exit 3; fi
+  if ! (cd $WT && patch -p1 --no-backup-if-mismatch -F3 < "$PATCH" >/tmp/verif_mut_apply.log 2>&1); then echo "PATCH DOES NOT APPLY: $PATCH"; cat /tmp/verif_mut_apply.log | tail -5; git -C $WT reset -q --hard; exit 3; fi
 fi
 git -C $WT reset -q
-mkdir -p /tmp/verif_mut
+mkdir -p $OUTD
 for C in "$@"; do
-  VERIF_OUT=/tmp/verif_mut VERIF_REPO=$WT /venv/bin/python /verif/run_check.py $C --tier $TIER > /tmp/verif_mut/$C.log 2>&1
+  VERIF_OUT=$OUTD VERIF_REPO=$WT /venv/bin/python /verif/run_check.py $C --tier $TIER > $OUTD/$C.log 2>&1
   rc=$?
-  nv=$(grep -c '^VIOLATION' /tmp/verif_mut/$C.log)
-  sigs=$(/venv/bin/python -c "import json;e=json.load(open('/tmp/verif_mut/evidence/$C.json'));print(e['coverage']['violation_signatures'])" 2>/dev/null | cut -c1-300)
+  nv=$(grep -c '^VIOLATION' $OUTD/$C.log)
+  sigs=$(/venv/bin/python -c "import json;e=json.load(open('$OUTD/evidence/$C.json'));print(e['coverage']['violation_signatures'])" 2>/dev/null | cut -c1-300)
   echo "  $C rc=$rc violations_printed=$nv sigs=$sigs"
 done
 git -C $WT checkout -q -- . ; git -C $WT clean -fdq
